@@ -180,7 +180,7 @@ def u_synced(c):
         c.prove("apply/registry-told-before-swap", len(reg) == 1 and reg[0][0] is fn and reg[0][1] is oldcode and reg[0][2] is var[1])
 
 
-@unit("TransformSet", ["C05", "C14"], [TR + ":TransformSet.__init__", TR + ":TransformSet._set_base", TR + ":TransformSet._register",
+@unit("TransformSet", ["C05", "C14", "C11", "C02"], [TR + ":TransformSet.__init__", TR + ":TransformSet._set_base", TR + ":TransformSet._register",
                                       TR + ":TransformSet.transform_for"],
       assumed=["types.FunctionType(code, globals, name, argdefs, closure) creates a new function object sharing the code object",
                "transform() is used through a ghost call (its own contract is the transformer schema, C01)"])
@@ -218,7 +218,8 @@ def u_tset(c):
     c.prove("base/no-raise", st == "ok")
     c.prove("base/original-function-and-code", isinstance(base, tuple) and base[0] is fn and base[1] is code0 and base[2] is None and base[3] is None)
     c.prove("base/no-transform", tcalls == [])
-    els = _elements(it, 2)
+    _El = it.get_global(S, "Element")
+    els = [it.call(_El, [], dict(name=n, capture=n)) for n in ("p", "q")]
     a = _choose_tuple(c, els)
     st, v1 = run(it, it.getattr(ts, "transform_for"), [list(a)])
     c.prove("variant/no-raise", st == "ok")
@@ -234,6 +235,24 @@ def u_tset(c):
     c.prove("variant/memo-by-set", st == "ok" and v2 is v1 and len(tcalls) == 1)
     st, base2 = run(it, it.getattr(ts, "transform_for"), [None])
     c.prove("base/stable", base2 is base)
+    # real (interned) capture elements that differ only in their category / focus: different capture sets
+    Element = it.get_global(S, "Element")
+    tA = it.getattr(it.get_global("ptera.tags", "tag"), "A")
+    tB = it.getattr(it.get_global("ptera.tags", "tag"), "B")
+    variants = [dict(name=None, capture="x", category=tA), dict(name=None, capture="x", category=tB), dict(name=None, capture="x"),
+                dict(name="v", capture="v", category=tA), dict(name="v", capture="v"), dict(name="v", capture="v", tags=frozenset({1}))]
+    i1 = c.choose(len(variants), "first")
+    i2 = c.choose(len(variants), "second")
+    e1 = it.call(Element, [], variants[i1])
+    e2 = it.call(Element, [], variants[i2])
+    n0 = len(tcalls)
+    st, w1 = run(it, it.getattr(ts, "transform_for"), [[e1]])
+    st2, w2 = run(it, it.getattr(ts, "transform_for"), [[e2]])
+    c.prove("elements/no-raise", st == "ok" and st2 == "ok")
+    if st == "ok" and st2 == "ok":
+        c.prove("elements/variant-is-compiled-for-exactly-the-requested-captures",
+                tcalls[n0][1].get("to_instrument") == frozenset([e1]) and (w2 is w1) == (e1 is e2)
+                and (e1 is e2 or tcalls[-1][1].get("to_instrument") == frozenset([e2])), only=["C11", "C05", "C02"])
 
 
 @unit("tooler", ["C05", "C10", "C18"], [O + ":_tooler", O + ":_untooler"])
@@ -526,3 +545,62 @@ def u_fanout(c):
         c.prove("exit/no-raise", st == "ok")
         c.prove("exit/on_completed-once-each-in-order", c.log == DN.at(n))
         c.prove("exit/then-cleared-then-_exit", len(cleared) == 1 and len(exits) == 1)
+
+
+@unit("OverridableProbe.emit", ["C04", "C12"], [P + ":OverridableProbe._emit", P + ":OverridableProbe.override", P + ":OverridableProbe.koverride",
+                                                 P + ":Probe._emit", G + ":SourceProxy._push", G + ":ObservableProxy.subscribe"],
+      assumed=["reactivex: observable.subscribe(fn) attaches an observer whose on_next(x) calls fn(x) synchronously; a pipeline stage that filters an event simply does not call on_next"])
+def u_overridable_emit(c):
+    """OverridableProbe._emit hands back, for EACH binding, the value an override subscriber wrote for THAT binding and
+    ABSENT (decline) when no subscriber wrote one: a value supplied for an earlier binding is never re-used."""
+    it = Interp(c)
+    _giving_hooks(it)
+    gate = {"open": True}
+    rx = it.module_env(G).vars["rx"]
+
+    def create(it_, a, k):
+        make = a[0]
+
+        def subscribe(it__, aa, kk):
+            fn = aa[0]
+
+            def on_next(it3, a3, k3):
+                if gate["open"]:
+                    return it3.call(fn, [a3[0]], {})
+
+            obs = SymObj("observer", Val.ref(z3.IntVal(it__.ctx.new_id())), attrs={"on_next": SummaryFn("on_next", on_next),
+                                                                                 "on_completed": SummaryFn("on_completed", lambda *x: None)})
+            it__.call(make, [obs, None], {})
+            return SymObj("disposable", Val.ref(z3.IntVal(it__.ctx.new_id())), attrs={"dispose": SummaryFn("dispose", lambda *x: None)})
+
+        return SymObj("observable", Val.ref(z3.IntVal(it_.ctx.new_id())), attrs={"make": make, "subscribe": SummaryFn("subscribe", subscribe)})
+
+    rx.attrs["create"] = SummaryFn("rx.create", create)
+    it.policies[O + ":autotool"] = lambda it_, f, a, k: a[0]
+    Element = it.get_global(S, "Element")
+    Call = it.get_global(S, "Call")
+    fnobj = SymObj("f", Val.ref(z3.IntVal(c.new_id())))
+    sel = it.call(Call, [], dict(element=it.call(Element, [], dict(name=fnobj)),
+                                captures=(it.call(Element, [], dict(name="a", capture="a", tags=frozenset({1}))),)))
+    OP = it.get_global(P, "OverridableProbe")
+    prb = it.call(OP, [sel], {})
+    absent = it.models.absent(it)
+    cap = mk_obj(it, "ptera.interpret", "Capture", element=None, capture="a", names=["a"], values=[c.val("v0")])
+    d1 = {"a": cap}
+    st, r0 = run(it, it.getattr(prb, "_emit"), [d1])
+    c.prove("no-subscriber/declines", st == "ok" and r0 is absent)
+    kw = bool(c.choose(2, "koverride"))
+    setter = callback(it, "setter", pure=True)
+    if kw:
+        st, _ = run(it, it.getattr(prb, "koverride"), [SummaryFn("ksetter", lambda it_, a, k: it_.call(setter, [k.get("a")], {}))])
+    else:
+        st, _ = run(it, it.getattr(prb, "override"), [setter])
+    c.prove("override/subscribes", st == "ok" and len(prb.fields["_observers"]) == 1)
+    st, r1 = run(it, it.getattr(prb, "_emit"), [d1])
+    c.prove("first-binding/override-applies", st == "ok" and r1 is not absent and isinstance(r1, Sym))
+    gate["open"] = False  # the pipeline filters the next event: the override declines for that binding
+    st, r2 = run(it, it.getattr(prb, "_emit"), [d1])
+    c.prove("later-binding/declined-binding-is-untouched(no stale value)", st == "ok" and r2 is absent)
+    gate["open"] = True
+    st, r3 = run(it, it.getattr(prb, "_emit"), [d1])
+    c.prove("third-binding/override-applies-again", st == "ok" and r3 is not absent)
